@@ -2,6 +2,9 @@
 """Intake of an independently written breaking change.
 
 usage: tools/seed_intake.py <property id> <worktree> <name> [check args...]
+       tools/seed_intake.py <property id> <worktree> <name> --files PATCH DEMO NOTES [check args...]
+(the second form takes a saved patch / demonstration / notes instead of the
+worktree's uncommitted diff, DEMO.py and NOTES.md)
 Verifies in a scratch copy of /repo that (1) the patch applies, (2) the pinned
 test command gives the same failing set with and without it, (3) the
 demonstration exits 1 with and 0 without the change; then runs ./check <id>
@@ -23,14 +26,20 @@ def failing(tree):
 def main():
     pid, wt, name = sys.argv[1:4]
     extra = sys.argv[4:]
-    rc, diff = sh("git diff", cwd=wt)
+    demo_src, notes_src = os.path.join(wt, "DEMO.py"), os.path.join(wt, "NOTES.md")
+    if extra[:1] == ["--files"]:
+        diff = open(extra[1]).read()
+        demo_src, notes_src = extra[2], extra[3]
+        extra = extra[4:]
+    else:
+        rc, diff = sh("git diff", cwd=wt)
     assert diff.strip(), "empty diff"
     files = [l[6:] for l in diff.splitlines() if l.startswith("+++ b/")]
     d = tempfile.mkdtemp(prefix="seedcheck-")
     try:
         sh("git -C /repo archive HEAD | tar -x -C %s" % d)
         clean_fails, clean_summary = failing(d)
-        shutil.copy(os.path.join(wt, "DEMO.py"), os.path.join(d, "DEMO.py"))
+        shutil.copy(demo_src, os.path.join(d, "DEMO.py"))
         rc0, out0 = sh("/venv/bin/python DEMO.py", cwd=d)
         patch = os.path.join(d, "seed.diff")
         open(patch, "w").write(diff)
@@ -68,9 +77,9 @@ def main():
         out_dir = os.path.join("/verif/seeded", name)
         os.makedirs(out_dir, exist_ok=True)
         open(os.path.join(out_dir, "patch.diff"), "w").write(diff)
-        shutil.copy(os.path.join(wt, "DEMO.py"), os.path.join(out_dir, "DEMO.py"))
-        if os.path.exists(os.path.join(wt, "NOTES.md")):
-            shutil.copy(os.path.join(wt, "NOTES.md"), os.path.join(out_dir, "NOTES.md"))
+        shutil.copy(demo_src, os.path.join(out_dir, "DEMO.py"))
+        if os.path.exists(notes_src):
+            shutil.copy(notes_src, os.path.join(out_dir, "NOTES.md"))
         old = {}
         mp = os.path.join(out_dir, "meta.json")
         if os.path.exists(mp):
